@@ -99,6 +99,9 @@ def run_tree(case: dict):
             reqs.append({"path": pathspell.canonical(segs), "labels": ["complete:encoded"], "kind": "complete", "rel": rel})
             if all(pathspell.literal_ok(s) for s in segs):
                 reqs.append({"path": "/" + "/".join(segs), "labels": ["complete:literal"], "kind": "complete", "rel": rel})
+            elif all(pathspell.literal_ok("".join(ch for ch in s if ord(ch) < 0xA0)) and s not in (".", "..") for s in segs):
+                # non-ASCII characters written literally (IRI form), everything else a legal literal pchar
+                reqs.append({"path": "/" + "/".join(segs), "labels": ["complete:literal-iri"], "kind": "complete", "rel": rel})
         stats = {"served": 0, "rejected_url": 0, "non2x": 0, "listing": 0, "raised": 0, "complete": 0, "escape_attempts": 0}
         def run_requests(reqs, phase):
             for rq in reqs:
